@@ -98,6 +98,11 @@ fn json_case(case: &Value, n: usize) -> Value {
 }
 
 fn tilejson_case(rt: &tokio::runtime::Runtime, dir: &Path, case: &Value, n: usize) -> Value {
+	tilejson_case_with(rt, dir, case, n, None)
+}
+
+/// `tiles`: the tile set to store next to the document (default: one small tile per level of the case's coverage)
+fn tilejson_case_with(rt: &tokio::runtime::Runtime, dir: &Path, case: &Value, n: usize, tiles_override: Option<MemReader>) -> Value {
 	let d = &case["doc"];
 	let fmt = case["fmt"].as_str().unwrap();
 	let (cmin, cmax) = (case["cov"][0].as_u64().unwrap() as u8, case["cov"][1].as_u64().unwrap() as u8);
@@ -140,7 +145,10 @@ fn tilejson_case(rt: &tokio::runtime::Runtime, dir: &Path, case: &Value, n: usiz
 	rest.sort_by(|a, b| a.0.cmp(&b.0));
 	let doc_rest = json!({"t":"o","v":rest.iter().map(|(k, v)| json!([string_to_cps(k), v])).collect::<Vec<_>>()});
 	let tiles: Vec<(TileCoord3, Blob)> = (cmin..=cmax).map(|z| (TileCoord3::new(0, (1u32 << z) - 1, z).unwrap(), Blob::from(crate::indep::gzip(&payload(z as u32 + 1, 40, true))))).collect();
-	let mut mem = MemReader::new("tj", TileFormat::PBF, TileCompression::Gzip, tiles);
+	let mut mem = match tiles_override {
+		Some(m) => m,
+		None => MemReader::new("tj", TileFormat::PBF, TileCompression::Gzip, tiles),
+	};
 	mem.tilejson = tj;
 	let path = file_path(dir, fmt, "tj");
 	remove_path(&path);
@@ -187,6 +195,21 @@ pub fn replay(input: &str, output: &str, dir: &str) -> Value {
 		let e = if case["k"] == "json" { json_case(case, n) } else { tilejson_case(&rt, d, case, n) };
 		out.emit(&e);
 	}
+	// directed: the document next to tile sets that take the PMTiles writer to its root-directory limit (the metadata block
+	// directly follows the root directory in the file): the window of tile counts around the root / leaf switch, found by probing
+	// the real writer (container::pmtiles_boundary_cases), each with the first PMTiles document of the enumerated cases
+	let mut boundary = 0u64;
+	if let Some(tmpl) = cases.iter().find(|c| c["k"] == "tilejson" && c["fmt"] == "pmtiles" && c["doc"]["vl"] == 1) {
+		for (i, bc) in crate::container::pmtiles_boundary_cases(seed(), tier_is_thorough()).iter().enumerate() {
+			let src = crate::container::source_of(bc);
+			let mut c = tmpl.clone();
+			c["cov"] = json!([8, 8]);
+			let mut e = tilejson_case_with(&rt, d, &c, cases.len() + i, Some(src.mem_reader()));
+			e["tiles_stored"] = json!(src.tiles.len());
+			out.emit(&e);
+			boundary += 1;
+		}
+	}
 	let lines = out.finish();
-	json!({"cases": cases.len(), "events": lines})
+	json!({"cases": cases.len(), "events": lines, "pmtiles_root_limit_cases": boundary})
 }
